@@ -107,7 +107,9 @@ NatOf(m) == NatOfFrom(m, 1)          \* only for small values (native TLC intege
            [k |-> "carr", vals]             (results only) the array cdata of a struct's array field
    C       integer, _Bool, char: digit sequence of the type's size
            float/double: [img |-> digits, asd |-> image as double]
-           pointer: [ref |-> "null" | "cell" | "tmp" | "bytes", id, data]
+           pointer: [ref |-> "null" | "cell" | "tmp" | "bytes" | "tmpv", id, data]
+                    (tmp: bytes of a temporary array of scalars; tmpv: the struct values of a
+                    temporary array of structs)
            struct: sequence of field C values;  array field: sequence of item C values *)
 
 IntT(s, sg) == [k |-> "int", size |-> s, signed |-> sg]
@@ -249,7 +251,10 @@ ConvPtrArg(t, v) ==
                 THEN Err("ValueError")
            ELSE Ok(BytesRef(v.data \o <<0>>))
       [] v.k = "list" ->
-           IF ~(t.item.k \in {"int", "bool", "char", "float"}) THEN Err("TypeError")
+           IF t.item.k = "struct"        \* temporary array of structs: every item zero-completed
+           THEN LET r == ConvSeq(TLCEval([i \in 1..Len(v.items) |-> t.item]), v.items, 1) IN
+                IF ~r.ok THEN r ELSE Ok([ref |-> "tmpv", id |-> 0, data |-> r.c])
+           ELSE IF ~(t.item.k \in {"int", "bool", "char", "float"}) THEN Err("TypeError")
            ELSE LET r == ConvSeq(TLCEval([i \in 1..Len(v.items) |-> t.item]), v.items, 1) IN
                 IF ~r.ok THEN r
                 ELSE Ok(TmpRef(IF Len(v.items) = 0 THEN <<0>> ELSE Flat(t.item, r.c, 1)))
@@ -298,6 +303,8 @@ PyEq(a, b) ==
    [f |-> "seterr"]           int seterr(int e) { old = errno; errno = e; return old; }
    [f |-> "smake", s]         struct S smake(T_1 a_1, ...) { S s = {a_1, ...}; return s; }
    [f |-> "sget", s, k]       T_k sget(struct S s) { return s.f_k; }
+   [f |-> "isum", t]          long long isum(T *p, int n): sum of p[0..n-1]
+   [f |-> "asum", s]          long long asum(struct S *p, int n): sum of ALL fields of p[0..n-1]
    [f |-> "vsum", fixed]      long long vsum(const char *fmt, ...): adds the variadic
                               arguments as fmt says: i int, u unsigned, l long long,
                               d the 64-bit image of a double, p the byte *p (0 if NULL) *)
@@ -312,6 +319,8 @@ ArgTypes(fn) ==
       [] fn.f = "wr" -> <<PtrT(fn.t), fn.t>>
       [] fn.f = "rdi" -> <<PtrT(fn.t), I32>>
       [] fn.f = "bump" -> <<PtrT(fn.t), I32>>
+      [] fn.f = "isum" -> <<PtrT(fn.t), I32>>
+      [] fn.f = "asum" -> <<PtrT(fn.s), I32>>
       [] fn.f = "seterr" -> <<I32>>
       [] fn.f = "smake" -> fn.s.fields
       [] fn.f = "sget" -> <<fn.s>>
@@ -324,7 +333,7 @@ ResType(fn) ==
       [] fn.f = "seterr" -> I32
       [] fn.f = "smake" -> fn.s
       [] fn.f = "sget" -> fn.s.fields[fn.k]
-      [] fn.f = "vsum" -> I64
+      [] fn.f \in {"vsum", "isum", "asum"} -> I64
 Variadic(fn) == fn.f = "vsum"
 
 \* memory access through a pointer C value; i is an element index, s the element size
@@ -368,6 +377,15 @@ RECURSIVE VSumFrom(_, _, _, _)
 VSumFrom(tags, cs, mem, i) == IF i > Len(cs) THEN Zeros(8)
                               ELSE AddC(VarAddend(tags[i], cs[i], mem), VSumFrom(tags, cs, mem, i + 1))
 
+\* (accumulating, each partial sum evaluated eagerly: the arrays have hundreds of items)
+RECURSIVE ISumAcc(_, _, _, _, _, _), FieldSum(_, _, _), ASumAcc(_, _, _, _, _)
+ISumAcc(mem, p, t, i, n, acc) ==
+    IF i >= n THEN acc
+    ELSE ISumAcc(mem, p, t, i + 1, n, TLCEval(AddC(acc, Ext(RdMem(mem, p, i, SizeOf(t)), SignedT(t), 8))))
+FieldSum(ts, c, j) == IF j > Len(ts) THEN Zeros(8) ELSE TLCEval(AddC(Ext(c[j], SignedT(ts[j]), 8), FieldSum(ts, c, j + 1)))
+ASumAcc(s, items, i, n, acc) ==
+    IF i > n THEN acc ELSE ASumAcc(s, items, i + 1, n, TLCEval(AddC(acc, FieldSum(s.fields, items[i], 1))))
+
 \* Apply: the C semantics; cs = converted arguments
 Apply(fn, cs, vtags, mem, errno) ==
     CASE fn.f = "sel" -> [ret |-> cs[fn.k], mem |-> mem, errno |-> errno]
@@ -379,6 +397,8 @@ Apply(fn, cs, vtags, mem, errno) ==
                           mem |-> mem, errno |-> errno]
       [] fn.f = "bump" -> [ret |-> <<>>, errno |-> errno,
                            mem |-> BumpFrom(mem, cs[1], SizeOf(fn.t), 0, NatOf(cs[2]))]
+      [] fn.f = "isum" -> [ret |-> ISumAcc(mem, cs[1], fn.t, 0, NatOf(cs[2]), Zeros(8)), mem |-> mem, errno |-> errno]
+      [] fn.f = "asum" -> [ret |-> ASumAcc(fn.s, cs[1].data, 1, NatOf(cs[2]), Zeros(8)), mem |-> mem, errno |-> errno]
       [] fn.f = "seterr" -> [ret |-> Enc(FromNat(errno), 4), mem |-> mem, errno |-> NatOf(cs[1])]
       [] fn.f = "smake" -> [ret |-> cs, mem |-> mem, errno |-> errno]
       [] fn.f = "sget" -> [ret |-> cs[1][fn.k], mem |-> mem, errno |-> errno]
@@ -535,4 +555,25 @@ StructStore(b, t, v, zero) ==
            ELSE StoreFields(b0, t, TLCEval([j \in 1..Len(v.items) |-> j]), v.items, 1)
       [] v.k = "dict" -> StoreFields(b0, t, v.keys, v.items, 1)
       [] OTHER -> [ok |-> FALSE, exc |-> "TypeError", b |-> b0]
+
+\* a list/tuple passed for a `struct S *` parameter (_cffi_convert_array_argument in
+\* _cffi_include.h and its copy in vengine_cpy.py, cdata_call): the temporary array comes from
+\* alloca() up to Thr bytes, from PyObject_Malloc beyond -- garbage either way --, is memset to
+\* zero, and every item is converted into its slot (only the fields the item names).
+\* variant "heap_nozero": the memset is skipped for the malloc'ed array.
+RECURSIVE TmpItems(_, _, _, _)
+TmpItems(b, t, items, i) ==
+    IF i > Len(items) THEN b
+    ELSE LET sz == SizeT(t)
+             slot == SubSeq(b, (i - 1) * sz + 1, i * sz)
+             r == StructStore(slot, t, items[i], FALSE)
+         IN TmpItems(Splice(b, (i - 1) * sz, r.b), t, items, i + 1)
+TmpArrayStore(t, items, thr, variant) ==
+    LET n == Len(items) * SizeT(t)
+        g == TLCEval([j \in 1..n |-> Base - 1])
+        b0 == IF variant = "heap_nozero" /\ n > thr THEN g ELSE Zeros(n)
+    IN TmpItems(b0, t, items, 1)
+RECURSIVE IdealItems(_, _, _)
+IdealItems(t, items, i) == IF i > Len(items) THEN <<>>
+                           ELSE ImgOf(t, ConvStruct(t, items[i]).c) \o IdealItems(t, items, i + 1)
 =============================================================================
